@@ -34,7 +34,7 @@ class Contract:
     def __init__(self, qual, params, returns=T.NoneT, requires=(), ensures=(), raises=(), loops=None,
                  modifies=(), mutates=(), inline=False, props=(), self_type=None, ghost=None, verify=True,
                  assume_only=False, yields=None, decreases=None, lemmas=(), note="", cover=True,
-                 raises_any_ok=False, vararg_types=None, canary=False, replay_self=None, emits=None, bnodes=None):
+                 raises_any_ok=False, vararg_types=None, canary=False, replay_self=None, emits=None, bnodes=None, axioms_of=()):
         self.qual = qual
         self.params = dict(params)            # name -> Ty (without self)
         self.returns = returns
@@ -57,6 +57,7 @@ class Contract:
         self.canary = canary            # deliberately wrong contract: at least one obligation must be refuted
         self.replay_self = replay_self
         self.emits = emits              # effect trace: list of '(s, p, o)' or '(guard, s, p, o)' spec expressions (None = no trace contract)
+        self.axioms_of = list(axioms_of)   # spec functions whose defining axioms are needed to verify this function
         self.bnodes = bnodes            # number of fresh nodes drawn (spec expression)
 
 def contract(qual, **kw):
